@@ -511,7 +511,7 @@ def heap_evaluate(interp, args, kwargs, node):
     return opaque(z3.Select(new, n))
 
 
-def make_heap_eval(frames):
+def make_heap_eval(frames, raises=()):
     """self.eval(cell) as seen by _evaluate: the compiled formula evaluates its read-precedents through _evaluate
     (frames: the clauses of _evaluate's own contract that hold across those nested calls - induction on the depth of
     the recursion) and returns F(cell, values), a value that is neither None (eval_func maps blank to 0: C09) nor an
@@ -541,6 +541,13 @@ def make_heap_eval(frames):
         interp.world.trusted.add('A-ACYCLIC: evaluating a formula does not (transitively) evaluate the same cell')
         ex.assume(z3.Select(new, n) == z3.Select(pre['value'], n))
         f_congruence(ex, pre['value'], new)
+        if raises:
+            # the formula may fail (unknown function, a function that raises, a failing precedent): eval_func lets only
+            # pycel's own errors out (proved in C09); what the nested evaluations did before the failure obeys the frames
+            k = ex.choose(len(raises) + 1)
+            if k:
+                from .sym import PyExc
+                raise PyExc(raises[k - 1], 'raised by the compiled formula (abstract)')
         p = z3.Const(ex.fresh_name('rp'), Node)
         ex.assume(z3.ForAll([p], z3.Implies(READS(p, n), z3.Select(new, p) != NONE_V)))
         r = FSEM(n, new)
